@@ -100,10 +100,10 @@ def r1_field_agreement(ck, repo):
     field = reads[0]
     n_writes = 0
     mi0 = repo.module("rl_blox.blox.replay_buffer")
-    for name, node in mi0.defs.items():
+    for name, node, mi0 in repo.module_members("rl_blox.blox.replay_buffer"):
         if not isinstance(node, ast.ClassDef):
             continue
-        cq = f"{mi0.name}.{name}"
+        cq = f"rl_blox.blox.replay_buffer.{name}"
         types = _attr_types(repo, cq)
         for meth in node.body:
             if not isinstance(meth, ast.FunctionDef):
